@@ -112,9 +112,14 @@ class UndoMonitor(explore.Monitor):
     if sig in ("stale-sorted-lookup", "stale-lookup"):
       # which structural change the (shrunk) history needs: several root causes end in a stale
       # lookup result, and a stale lookup after plain record edits would be a different defect
+      # (a direct edit of a column's / table's metadata record is the same structural change)
+      raw = {k for b in history for k in triage.action_kinds(b)}
+      kinds2 = set(kinds)
+      if any(k.endswith("@_grist_Tables_column") for k in raw): kinds2.add("ModifyColumn")
+      if any(k.endswith("@_grist_Tables") for k in raw): kinds2.add("RenameTable")
       for k in ("ReplaceTableData", "RemoveColumn", "ModifyColumn", "RenameColumn", "RemoveTable",
                 "RenameTable", "AddColumn"):
-        if k in kinds:
+        if k in kinds2:
           return "%s|%s|%s" % (clause, sig, k)
       return "%s|%s|record-edits-only" % (clause, sig)
     if sig == "trigger-column-recalculated":
